@@ -75,6 +75,16 @@ func replayInto(c *Ctx, path string) {
 		replayCases = append(replayCases, f.Case)
 	}
 	replayCases = append(replayCases, doc.Cases...)
+	// several failures of one case: the case is evaluated once
+	seen := map[string]bool{}
+	uniq := replayCases[:0]
+	for _, cs := range replayCases {
+		if k := cs.Key(); !seen[k] {
+			seen[k] = true
+			uniq = append(uniq, cs)
+		}
+	}
+	replayCases = uniq
 	if len(replayCases) == 0 {
 		fmt.Fprintln(os.Stderr, "replay: file holds no cases (a no-failing-input-found replay names the broken obligation instead)")
 	}
